@@ -54,7 +54,11 @@ CheckBody(r, idx) ==
         late3 == {y \in Y : r.sc.kind = "keys" /\ \E d \in once : /\ d[1] = r.yields[y][1] /\ d[4] <= r.yields[y][3] /\ d[5] <= r.yields[y][3]
                                                                     /\ (r.exp[d[1] + 1] = -1 \/ r.exp[d[1] + 1] <= r.yields[y][3])}
         wrongv == {y \in Y : r.yields[y][2] # -1 /\ r.yields[y][1] \in K \ touched /\ r.yields[y][2] # r.yields[y][1]}
-    IN (IF late # {} THEN <<F(idx, "C03.iterated_after_deadline", <<r.sc.kind, {<<r.yields[y][1], r.exp[r.yields[y][1] + 1], r.yields[y][3]>> : y \in late}>>)>> ELSE <<>>)
+        \* an iterator that was obtained, kept while time passed (sc.pre seconds) and consumed afterwards: entries that had expired before the
+        \* consumption began (t0 is taken after the wait) are not yielded
+        deadBefore == {y \in Y : r.sc.pre > 0 /\ r.yields[y][1] \in K \ touched /\ r.exp[r.yields[y][1] + 1] # -1 /\ r.exp[r.yields[y][1] + 1] <= r.t0}
+    IN (IF deadBefore # {} THEN <<F(idx, "C15.iteration_yielded_entry_expired_before_it_began", <<r.sc.kind, {r.yields[y][1] : y \in deadBefore}>>)>> ELSE <<>>)
+       \o (IF late # {} THEN <<F(idx, "C03.iterated_after_deadline", <<r.sc.kind, {<<r.yields[y][1], r.exp[r.yields[y][1] + 1], r.yields[y][3]>> : y \in late}>>)>> ELSE <<>>)
        \o (IF ghost # {} THEN <<F(idx, "C03.iterated_absent_key", <<r.sc.kind, {r.yields[y][1] : y \in ghost}>>)>> ELSE <<>>)
        \o (IF r.st0 # r.st1 THEN <<F(idx, "C20.iteration_moved_lookup_counters", <<r.sc.kind, r.st0, r.st1>>)>> ELSE <<>>)
        \o (IF dupl THEN <<F(idx, "C15.iteration_yielded_key_twice", <<r.sc.kind, keys>>)>> ELSE <<>>)
